@@ -14,7 +14,7 @@ from ..streams import AskedForever, EventLog, Runaway, SimInputStream, SimOutput
 PROP = "C18"
 LEVEL = "fault_enumeration"
 RUNS = {"quick": 60000, "thorough": 5000000}
-OPS_KEYS = ("script",)
+OPS_KEYS = ("script", "script2")
 INFO = {
     "rule": "seeded dialogues: choice lists of 1-5 entries (numeric-looking, duplicated, spaced, "
             "case-differing, non-ASCII), single/multi-select, defaults, attempt limits {unlimited,1,2,3}, "
@@ -39,7 +39,7 @@ INFO = {
 }
 EXPECTED_PROBES = ("eof_inside_dialogue", "eof_unlimited_attempts", "limit_exhausted", "index_answer",
                    "value_answer", "ambiguous_entry", "multi_select", "default_on_empty", "overlong_line",
-                   "torn_last_line", "non_interactive", "confirmation")
+                   "torn_last_line", "non_interactive", "confirmation", "second_ask_same_object")
 
 _q = None
 
@@ -90,15 +90,18 @@ def gen(S, tier):
         sc.update({"default": c.pick([None, "white"]), "valid": ["white", "black"],
                    "validator": c.chance(0.8)})
     else:
-        sc.update({"default": c.chance(0.5), "pattern": c.pick(["(?i)^y", "(?i)^y", "^(oui|o)$", "^[jJ]"])})
+        sc.update({"default": c.chance(0.5), "pattern": c.pick(["(?i)^y", "(?i)^y", "^(oui|o)$", "^[jJ]", "(?i)y", "1", "o", "ja?"])})
     for _ in range(w.randint(0, 4)):
         sc["script"].append(_answer(w, sc))
+    # the same question object asked a second time, on a fresh IO with its own script: what the
+    # first dialogue left behind (remaining attempts, last error) must not show in the second
+    sc["script2"] = [_answer(w, sc) for _ in range(w.randint(0, 3))] if w.chance(0.35) else None
     return sc
 
 
 def _answer(w, sc):
     if sc["kind"] == "confirm":
-        return w.pick(["", "y", "Y", "yes", "n", "no", "yep", " y ", "maybe", "oui", "o", "ja", "N", "0"]) + "\n"
+        return w.pick(["", "y", "Y", "yes", "n", "no", "yep", " y ", "maybe", "oui", "o", "ja", "N", "0", "nay", "01", "1", "non", "naja"]) + "\n"
     if sc["kind"] == "question":
         return w.pick(["", "white", "black", "green", " white ", "WHITE", "Ünï"]) + "\n"
     ch = sc["choices"]
@@ -123,6 +126,8 @@ def sweep(sc, tier):
 
 
 def simplify(sc):
+    if sc.get("script2") is not None:
+        yield dict(sc, script2=None)
     if sc.get("attempts") not in (None, 1):
         yield dict(sc, attempts=1)
     if sc.get("error_message"):
@@ -217,27 +222,28 @@ def _wellformed(sc):
 
 
 def execute(sc):
-    from clikit.api.io import IO, Input, Output
-    from clikit.formatter import AnsiFormatter
-    from clikit.ui.components import ChoiceQuestion, ConfirmationQuestion, Question
-
     res = Result()
     log = EventLog()
     if not _wellformed(sc):
         return res  # only the shrinker can produce these; no verdict
-    lines, entries = _entries(sc)
-    limit = sc["attempts"]
-    kind = sc["kind"]
-    has_validator = kind == "choice" or (kind == "question" and sc.get("validator"))
-    budget = limit if (limit and has_validator) else 2
-    inp = SimInputStream(log, lines, eof_budget=max(budget, 1) + 2)
-    out = SimOutputStream("out", log, ansi=True)
-    err = SimOutputStream("err", log, ansi=True)
-    err.max_calls = out.max_calls = 400  # a dialogue of <= 12 reads cannot need more
-    fm = AnsiFormatter()
-    io = IO(Input(inp), Output(out, fm), Output(err, fm))
-    io.set_interactive(sc["interactive"])
+    q = _make_question(sc, res)
+    _dialogue(sc, q, res, log, "")
+    if sc.get("script2") is not None and not res.violations:
+        sc2 = dict(sc, script=sc["script2"], torn=False)
+        n0, nt = len(res.violations), res.nontrivial
+        _dialogue(sc2, q, res, log, "second_ask:")
+        for v in res.violations[n0:]:
+            v["where"] = "second_ask:" + v["where"]
+        res.nontrivial = res.nontrivial or nt
+        res.probe("second_ask_same_object")
+    res.events = log.events
+    return res
 
+
+def _make_question(sc, res):
+    from clikit.ui.components import ChoiceQuestion, ConfirmationQuestion, Question
+    kind = sc["kind"]
+    limit = sc["attempts"]
     if kind == "choice":
         q = ChoiceQuestion("Pick one?", list(sc["choices"]), sc["default"])
         q.set_multi_select(sc["multi"])
@@ -256,6 +262,28 @@ def execute(sc):
         res.probe("confirmation")
     if limit is not None:
         q.set_max_attempts(limit)
+    return q
+
+
+def _dialogue(sc, q, res, log, tag):
+    from clikit.api.formatter import Style, StyleSet
+    from clikit.api.io import IO, Input, Output
+    from clikit.formatter import AnsiFormatter
+
+    lines, entries = _entries(sc)
+    limit = sc["attempts"]
+    kind = sc["kind"]
+    has_validator = kind == "choice" or (kind == "question" and sc.get("validator"))
+    budget = limit if (limit and has_validator) else 2
+    inp = SimInputStream(log, lines, eof_budget=max(budget, 1) + 2)
+    out = SimOutputStream("out", log, ansi=True)
+    err = SimOutputStream("err", log, ansi=True)
+    err.max_calls = out.max_calls = 400  # a dialogue of <= 12 reads cannot need more
+    # the harness's own style set: error lines are recognised by a style the harness chose
+    fm = AnsiFormatter(StyleSet([Style("error").fg("magenta").underlined(), Style("question").fg("blue"),
+                                 Style("comment").fg("cyan"), Style("info").fg("green"), Style("hl").fg("black").bg("white")]))
+    io = IO(Input(inp), Output(out, fm), Output(err, fm))
+    io.set_interactive(sc["interactive"])
 
     outcome = None
     try:
@@ -268,7 +296,7 @@ def execute(sc):
     log.add("outcome", outcome[0], repr(outcome[1:])[:120])
 
     err_data = err.data()
-    n_err = len(re.findall(r"\x1b\[31;1m", err_data))
+    n_err = len(re.findall(r"\x1b\[35;4m", err_data))
     reads = inp.reads
     after_eof = inp.reads_after_eof
     res.steps = reads
